@@ -111,7 +111,9 @@ func runC07(c c07case) (res c07result) {
 	if strings.Contains(c.First, "B") {
 		startSend(b, "first")
 	}
+	restarted := false
 	restartB := func() {
+		restarted = true
 		res.trace = append(res.trace, "restart B")
 		old := b
 		// known finding class: the survivor is an initiator whose hello the old instance already answered
@@ -243,6 +245,18 @@ func runC07(c c07case) (res c07result) {
 		}
 		if !returned {
 			res.problem = fmt.Sprintf("pending Send on %s still blocked %v after the network became reliable (handshake backoff %v, reject-after %v)", p.n.name, threshold, backoff, cfg.reject)
+			// The known finding class is recognised by the state of the blocked side at the time of the failure as
+			// well: on a busy machine the survivor may process the old instance's RespHello (and emit InitDone) only
+			// after the restart decision was taken, which is the same history in another interleaving.
+			if restarted && p.n == a && keyIndex(a.ch.RemoteKey()) < 0 {
+				a.mu.Lock()
+				for _, m := range a.emitted {
+					if counterOf(m) == 2 {
+						res.knownKey = "restart-while-initiator-awaits-RespDone"
+					}
+				}
+				a.mu.Unlock()
+			}
 			return res
 		}
 	}
@@ -666,6 +680,83 @@ func TestC07LateDuplicates(t *testing.T) {
 			if ev.NonTrivial(sub, d) {
 				ev.Sample(sub, fmt.Sprintf("keepAlive=%dms first=%s %s", kaMs, first, d))
 			}
+		}
+	})
+}
+
+// TestC07OutageBeyondReject: the network is down for longer than a handshake attempt is allowed to live
+// (RejectAfterTime) while a Send is waiting; once it is back, the waiting Send must get through.
+func TestC07OutageBeyondReject(t *testing.T) {
+	const sub = "C07.outage_beyond_reject_after"
+	ev.Rule(sub, "rapid: two channels, handshake backoff 10 ms, RejectAfterTime 150-300 ms, RekeyAfterTime 1 h (longer than RejectAfterTime), optionally an established session first; the wire drops everything for 1.2-3 RejectAfterTime while one or both sides are blocked in Send; then the wire delivers promptly. Oracle: every pending Send returns nil within max(50 x backoff, 2 s) of the wire coming back (patient limit) and its message arrives. non-trivial = outage longer than RejectAfterTime with a Send pending throughout; distinct by parameters")
+	rapid.Check(t, func(t *rapid.T) {
+		rejectMs := rapid.SampledFrom([]int{150, 200, 300}).Draw(t, "rejectAfterMs")
+		outage := time.Duration(rejectMs) * time.Millisecond * time.Duration(rapid.IntRange(12, 30).Draw(t, "outageTenths")) / 10
+		who := rapid.SampledFrom([]string{"A", "B", "AB"}).Draw(t, "senders")
+		established := rapid.Bool().Draw(t, "establishedBefore")
+		desc := fmt.Sprintf("rejectAfter=%dms outage=%v senders=%s establishedBefore=%v", rejectMs, outage, who, established)
+		cfg := chanCfg{backoff: 10 * time.Millisecond, keepAlive: time.Minute, rekey: time.Hour, reject: time.Duration(rejectMs) * time.Millisecond}
+		nt := newNet()
+		defer nt.close()
+		a := nt.addNode("A", kA, acceptAll, cfg)
+		b := nt.addNode("B", kB, acceptAll, cfg)
+		nt.link(a, b)
+		nt.link(b, a)
+		fail := func(f string, args ...any) {
+			nt.close()
+			t.Fatalf("%s\ncase: %s", fmt.Sprintf(f, args...), desc)
+		}
+		if established {
+			if err := a.send("m0", 2*time.Second); err != nil {
+				fail("initial Send failed: %v", err)
+			}
+			// let the established session run out (RejectAfterTime), so that the next Send needs a new handshake
+			time.Sleep(time.Duration(rejectMs)*time.Millisecond + 20*time.Millisecond)
+		}
+		var down atomic.Bool
+		down.Store(true)
+		nt.mu.Lock()
+		nt.drop = func(*node, []byte) bool { return down.Load() }
+		nt.mu.Unlock()
+		type pend struct {
+			n    *node
+			done chan error
+		}
+		var ps []pend
+		for _, c := range who {
+			n := a
+			if c == 'B' {
+				n = b
+			}
+			p := pend{n, make(chan error, 1)}
+			ps = append(ps, p)
+			go func() { p.done <- n.send("through-the-outage", outage+30*time.Second) }()
+		}
+		time.Sleep(outage)
+		down.Store(false)
+		const threshold = 2 * time.Second
+		for _, p := range ps {
+			err, returned := ev.PatientRecv(threshold, p.done)
+			if !returned {
+				fail("the Send that %s started before the outage is still blocked %v after the wire came back (InitHellos so far: A %d, B %d)", p.n.name, threshold, atomic.LoadInt64(&a.initHello), atomic.LoadInt64(&b.initHello))
+			}
+			if err != nil {
+				fail("the Send that %s started before the outage failed after the wire came back: %v", p.n.name, err)
+			}
+			peer := b
+			if p.n == b {
+				peer = a
+			}
+			if !waitUntil(threshold, func() bool { return peer.gotPlain(p.n, "through-the-outage") }) {
+				fail("%s's message did not arrive after the outage", p.n.name)
+			}
+		}
+		ev.Eval(sub)
+		if probs := nt.problems(); len(probs) > 0 {
+			fail("%s", strings.Join(probs, "\n"))
+		}
+		if ev.NonTrivial(sub, desc) {
+			ev.Sample(sub, desc)
 		}
 	})
 }
